@@ -87,15 +87,15 @@ func loadLock(path string) map[string]map[string]bool {
 }
 
 type propRun struct {
-	id       string
-	results  []*FuncResult
-	lemmas   []*FuncResult
-	trusted  []string
-	scan     []string
-	notes    []string
-	loadS    float64
-	genS     float64
-	solveS   float64
+	id      string
+	results []*FuncResult
+	lemmas  []*FuncResult
+	trusted []string
+	scan    []string
+	notes   []string
+	loadS   float64
+	genS    float64
+	solveS  float64
 }
 
 func propsOf(fc *FuncContract) []string { return fc.Props }
@@ -219,6 +219,7 @@ func cmdCheck(args []string) int {
 	funcsInfo := []map[string]interface{}{}
 	byBackend := map[string]int{}
 	var sumT, maxT float64
+	slow := []string{}
 	covers, coversSat := 0, 0
 	stubSet := map[string]bool{}
 	var outOfSubset []string
@@ -257,6 +258,9 @@ func cmdCheck(args []string) int {
 			sumT += o.TimeS
 			if o.TimeS > maxT {
 				maxT = o.TimeS
+			}
+			if o.TimeS > 2 || o.Retried {
+				slow = append(slow, fmt.Sprintf("%s %.2fs %s retried=%v", o.Name, o.TimeS, o.Backend, o.Retried))
 			}
 			if !oblOK(o) {
 				fails = append(fails, fail{name: o.Name, reason: "solver answer: " + o.Status, o: o, fr: r})
@@ -312,6 +316,24 @@ func cmdCheck(args []string) int {
 		}
 	}
 
+	// thorough tier: the must-fail corpus of this property (hand-written mutants, canaries of the
+	// repaired defects, independently seeded changes) is run against scratch copies; a mutant that
+	// verifies is an engine/contract hole recorded in the evidence (it is not a violation of /repo)
+	var mutantInfo map[string]interface{}
+	if *tier == "thorough" && os.Getenv("GOVC_NO_MUTANTS") == "" && *repo == repoDir {
+		res := runMutants(filepath.Join(verifDir, "selftest"), "", *id, 6, true)
+		var missed []string
+		caught := 0
+		for _, r := range res {
+			if r.ok {
+				caught++
+			} else {
+				missed = append(missed, r.name)
+			}
+		}
+		mutantInfo = map[string]interface{}{"mutants_run": len(res), "caught": caught, "not_caught": missed,
+			"note": "each mutant is applied to a scratch copy of /repo, must compile, and must make this property's check report a violation"}
+	}
 	violations := 0
 	var knownHit []string
 	replayDir := filepath.Join(*outRoot, "out", "replay", *id)
@@ -393,19 +415,23 @@ func cmdCheck(args []string) int {
 	ev := evidence{PropertyID: *id, Tier: *tier, Seed: seed, Level: "proof", Assumptions: assumptions, Violations: violations,
 		WallS: round3(time.Since(start).Seconds())}
 	ev.Coverage = map[string]interface{}{
-		"obligations":  len(all),
-		"discharged":   discharged,
-		"checker_cmd":  fmt.Sprintf("/verif/bin/govc check -p %s -tier %s  (per obligation: z3-new | z3 | cvc5 raced, timeout %ds)", *id, *tier, timeoutS),
-		"trusted_base": trusted,
-		"functions":    funcsInfo,
-		"by_backend":   byBackend,
-		"solver_time_s": map[string]float64{"sum": round3(sumT), "max": round3(maxT), "load": round3(pr.loadS), "vcgen": round3(pr.genS), "solve_wall": round3(pr.solveS)},
-		"samples":      samples,
-		"covers":       map[string]int{"run": covers, "sat": coversSat},
-		"out_of_subset": outOfSubset,
-		"bounded_standins": bounded,
+		"obligations":            len(all),
+		"discharged":             discharged,
+		"checker_cmd":            fmt.Sprintf("/verif/bin/govc check -p %s -tier %s  (per obligation: z3-new | z3 | cvc5 raced, timeout %ds)", *id, *tier, timeoutS),
+		"trusted_base":           trusted,
+		"functions":              funcsInfo,
+		"by_backend":             byBackend,
+		"solver_time_s":          map[string]float64{"sum": round3(sumT), "max": round3(maxT), "load": round3(pr.loadS), "vcgen": round3(pr.genS), "solve_wall": round3(pr.solveS)},
+		"samples":                samples,
+		"slow_obligations":       slow,
+		"covers":                 map[string]int{"run": covers, "sat": coversSat},
+		"out_of_subset":          outOfSubset,
+		"bounded_standins":       bounded,
 		"known_findings_matched": knownHit,
-		"arithmetic":   "mathematical integers + overflow obligations; floats uninterpreted unless stated",
+		"arithmetic":             "mathematical integers + overflow obligations; floats uninterpreted unless stated",
+	}
+	if mutantInfo != nil {
+		ev.Coverage["must_fail_corpus"] = mutantInfo
 	}
 	if err := writeJSON(evPath, ev); err != nil {
 		fmt.Fprintln(os.Stderr, "govc: cannot write evidence:", err)
